@@ -17,7 +17,8 @@ RULE = ("template texts over every token kind (all opcode names, aliases 0..16, 
         "one-byte pushes, templates from from_script / from_script_impl / from_asm_string(to_asm_string) compared, exact/min/max at "
         "0, 1, 2^8, 2^16, 2^31, 2^32, 2^53, 2^63-1, 2^63, 2^64-1 (and neighbours) on outputs and inputs, first match at every "
         "position; every op cross-checks the alternative entry points (matches / match_impl / is_match / test_impl, criteria built "
-        "from the setters' returned clones and Default, add_outputs / add_inputs, cloned transaction); call-history stream "
+        "from the setters' returned clones and Default, add_outputs / add_inputs, cloned transaction); special field values the matcher only copies (null outpoint and each half of it, sequences 0 / 0xffffffff, "
+        "odd txid lengths, output values 0 and 2^64-1, empty scripts) under criteria the entries satisfy; call-history stream "
         "tx.match_history: one MatchCriteria and one Transaction observed after every step - the four setters in all 24 orders (also "
         "continuing on the returned value / on clones), fields set twice, zero and maximal bounds, input annotations (satoshis, "
         "locking and unlocking script) set or changed in every order before and after the criteria, transaction clone and "
